@@ -263,6 +263,11 @@ impl Storage {
     }
 
     pub fn unflushed_wal_ids(&self) -> Range<u64> {
+        #[cfg(feature = "verif")]
+        crate::verif::hooks::store_event(|| {
+            let r = self.meta_store.read().unwrap().unflushed_wal_ids();
+            crate::verif::hooks::StoreEvent::FlushBegin { start: r.start, end: r.end }
+        });
         self.meta_store.read().unwrap().unflushed_wal_ids()
     }
 
@@ -356,6 +361,8 @@ impl Storage {
         }
 
         tracer.end_span(span_delete_wal_segments);
+        #[cfg(feature = "verif")]
+        crate::verif::hooks::store_event(|| crate::verif::hooks::StoreEvent::FlushEnd);
     }
 
     // Combine set of partitions into single new partition.
@@ -534,4 +541,15 @@ fn sanitize_table_name(table_name: &str) -> String {
         name = format!("-{}-{:x}", name, hasher.finalize());
     }
     name
+}
+
+// verification hooks: wrappers for private naming functions (add-only, feature `verif`)
+#[cfg(feature = "verif")]
+pub fn verif_partition_filename(id: PartitionID, subpartition_key: &str) -> String {
+    partition_filename(id, subpartition_key)
+}
+
+#[cfg(feature = "verif")]
+pub fn verif_sanitize_table_name(table_name: &str) -> String {
+    sanitize_table_name(table_name)
 }
